@@ -71,6 +71,13 @@ fn(W + ".run_app", params={"environ": "opaque", "send": "callable{record:sent_sy
    props=("C17",))
 
 CNAME = ("('CONTENT_LENGTH' if latin1(h[0]) == 'content-length' else ('CONTENT_TYPE' if latin1(h[0]) == 'content-type' else 'HTTP_' + latin1(h[0]).upper().replace('-', '_')))")
+# the comma-join over the whole header list, as recursive spec functions (used as the oracle of the
+# bounded native search; the proved form is the per-header step C17.environ.header-step)
+from pyvc.contracts import specfn
+specfn("env_has", ["hs:hdrs", "n:int", "key:str"], rec="n", returns="bool", base="False",
+       step="(" + CNAME.replace("h[0]", "hs[n - 1][0]") + " == key) or env_has(hs, n - 1, key)")
+specfn("env_join", ["hs:hdrs", "n:int", "key:str"], rec="n", returns="str", base="''",
+       step="ite(" + CNAME.replace("h[0]", "hs[n - 1][0]") + " == key, ite(env_has(hs, n - 1, key), env_join(hs, n - 1, key) + ',' + latin1(hs[n - 1][1]), latin1(hs[n - 1][1])), env_join(hs, n - 1, key))")
 fn("hypercorn.app_wrappers:_build_environ", params={"scope": SCOPE, "body": "bytes"}, modifies=[], effect="atomic",
    returns="dict{REQUEST_METHOD:str;SCRIPT_NAME:str;PATH_INFO:str;QUERY_STRING:str;SERVER_PROTOCOL:str;wsgi.url_scheme:str;wsgi.input:obj io:IOBuf}",
    # ASGI: query_string is percent-encoded, i.e. ASCII; root_path / path are taken as ASCII here (the
@@ -99,6 +106,9 @@ fn("hypercorn.app_wrappers:_build_environ", params={"scope": SCOPE, "body": "byt
        ("C17.environ.path-info", "scope['path'].startswith(scope['root_path']) and result['PATH_INFO'] == (scope['path'][len(scope['root_path']):] if scope['path'] != scope['root_path'] else '/')", "C17"),
        ("C17.environ.input", "result['wsgi.input'].content == body and not result['wsgi.input'].is_text", "C17"),
    ],
+   # bounded (native search only, not proved): every header's variable holds the comma-join, in
+   # order, of the values of all header lines that map onto it
+   oracle_ensures=[("C17.environ.headers-joined", "all(result[" + CNAME + "] == env_join(scope['headers'], len(scope['headers']), " + CNAME + ") for h in scope['headers'])", "C17")],
    props=("C17",))
 
 # ------------------------------------------------------------------------------------------------
